@@ -106,8 +106,28 @@ End Facts.
 Lemma traverse_head sel tree : exists evs', t_evs (traverse sel tree) = EvEnter [] :: evs'.
 Proof. unfold traverse. cbn [t_evs]. eexists; reflexivity. Qed.
 
+Definition facts (evs : list ev) : Prop :=
+  (forall d nd loc, In (EvVisit d nd loc) evs ->
+     In d (map ev_dir evs) /\ (forall X, In X (map ev_dir evs) -> prefixb (d ++ [node_name nd]) X = false) /\
+     loc = d ++ [node_name nd]) /\
+  (forall d mo loc keep, In (EvLeave d mo loc keep) evs ->
+     In d (map ev_dir evs) /\
+     (forall X e, In X (map ev_dir evs) -> prefixb (d ++ [e]) X = true -> mem_name e keep = true) /\
+     (forall d' nd' loc' e, In (EvVisit d' nd' loc') evs -> prefixb (d ++ [e]) (d' ++ [node_name nd']) = true ->
+                            mem_name e keep = true)) /\
+  (forall d1 nd1 l1 d2 nd2 l2, In (EvVisit d1 nd1 l1) evs -> In (EvVisit d2 nd2 l2) evs ->
+     d1 ++ [node_name nd1] = d2 ++ [node_name nd2] -> nd1 = nd2) /\
+  (forall d mo loc keep, In (EvLeave d mo loc keep) evs ->
+     exists y, In y (ensured_of evs) /\ prefixb d y = true).
+
+Lemma facts_of_wf evs : wf_events evs = true -> facts evs.
+Proof.
+  intros H. split; [exact (W_visit evs H)|]. split; [exact (W_leave evs H)|].
+  split; [exact (W_nodup evs H) | exact (W_leave_ens evs H)].
+Qed.
+
 Lemma restore_body_local o sel P t tree fs0 :
-  physdir fs0 P -> wf_events (t_evs (traverse sel tree)) = true ->
+  physdir fs0 P -> facts (t_evs (traverse sel tree)) ->
   let T := P ++ [t] in
   let tr := traverse sel tree in
   let s1 := fold_left (pass1_ev o T) (t_evs tr) (mkP fs0 [] []) in
@@ -139,8 +159,7 @@ Proof.
     - intros l Hl. destruct (Hf l Hl) as [[] | [d [n [c [m [Hin Hpc]]]]]].
       exists d, n, c, m. split; [right; exact Hin | exact Hpc]. }
   destruct H1 as [HT1 [Hl1 [Hens [Hfiles Htr]]]].
-  pose proof (W_visit evs Hwf) as Wv. pose proof (W_leave evs Hwf) as Wl.
-  pose proof (W_nodup evs Hwf) as Wn. pose proof (W_leave_ens evs Hwf) as Wc.
+  destruct Hwf as [Wv [Wl [Wn Wc]]].
   fold used in Wv, Wl.
   assert (HG1 : G P t used (p_fs s1)).
   { intros X HX. unfold used in HX. apply in_map_iff in HX as [e [<- He]].
@@ -173,8 +192,8 @@ Proof.
   eapply local_trans; [exact Hl1|]. eapply local_trans; [exact Hl2 | exact Hl3].
 Qed.
 
-Theorem restore_local o sel P t tree fs :
-  physdir fs P -> wf_events (t_evs (traverse sel tree)) = true ->
+Theorem restore_local_facts o sel P t tree fs :
+  physdir fs P -> facts (t_evs (traverse sel tree)) ->
   local (P ++ [t]) fs (restore o sel (P ++ [t]) tree fs).
 Proof.
   intros HP Hwf. unfold restore.
@@ -187,6 +206,11 @@ Proof.
   destruct s; [|exact Hl0|exact Hl0].
   eapply local_trans; [exact Hl0|]. apply (restore_body_local o sel P t tree fs0 HP0 Hwf).
 Qed.
+
+Theorem restore_local o sel P t tree fs :
+  physdir fs P -> wf_events (t_evs (traverse sel tree)) = true ->
+  local (P ++ [t]) fs (restore o sel (P ++ [t]) tree fs).
+Proof. intros HP Hwf. apply restore_local_facts; [exact HP | apply facts_of_wf; exact Hwf]. Qed.
 
 (* ---- the oracle ---- *)
 Lemma entry_eqb_spec a b : entry_eqb a b = true <-> a = b.
